@@ -75,3 +75,101 @@ LOOPS[K + 'kappa_X'] = {
     0: dict(index='k', types={'newseq': 'str'}, invariant=['recoded(newseq, self.seq, k, %s)' % _TWO.replace('grp1', 'old(grp1)').replace('grp2', 'old(grp2)')]),
     1: dict(index='k', types={'newseq': 'str'}, invariant=['recoded(newseq, self.seq, k, %s)' % _ONE.replace('grp1', 'old(grp1)')]),
 }
+
+# ----------------------------------------------------------------------------- C03.d: permutant of the parent's residues with the candidate's pattern
+def _parent(it, case):
+    return mk_sequence(prefix='parentSeqObj')(it, case)
+
+
+_PN = 'parentSeqObj.len'
+_PS = 'parentSeqObj.seq'
+CONTRACT[K + '__permutant_from_reduced_seq'] = dict(
+    self=mk_sequence(alphabet='reduced'), params={'parentSeqObj': _parent},
+    requires=['seq_inv(parentSeqObj)', 'self.len == %s' % _PN, 'forall(lambda j: is_aa(%s[j]), 0, %s)' % (_PS, _PN),
+              'forall(lambda j: isin(self.seq[j], "+-0"), 0, self.len)',
+              'n_sym(self.seq, "+", 0, self.len) == npos(%s, 0, %s)' % (_PS, _PN),
+              'n_sym(self.seq, "-", 0, self.len) == nneg(%s, 0, %s)' % (_PS, _PN),
+              'n_sym(self.seq, "0", 0, self.len) == nneut(%s, 0, %s)' % (_PS, _PN)],
+    raises=[], modifies=[], returns='str',
+    lemmas=['count_partition(%s, 0, %s)' % (_PS, _PN),
+            'cnt_ext(mkseq(lambda j: isin(%s[j], "RK"), %s, "bool"), mkseq(lambda j: isin(%s[j], "KR+"), %s, "bool"), 0, %s)' % (_PS, _PN, _PS, _PN, _PN),
+            'cnt_ext(mkseq(lambda j: isin(%s[j], "DE"), %s, "bool"), mkseq(lambda j: isin(%s[j], "DE-"), %s, "bool"), 0, %s)' % (_PS, _PN, _PS, _PN, _PN),
+            'cnt_ext(mkseq(lambda j: Not(isin(%s[j], "DERK")), %s, "bool"), mkseq(lambda j: Not(isin(%s[j], "KR+DE-")), %s, "bool"), 0, %s)' % (_PS, _PN, _PS, _PN, _PN)],
+    ensures=['length(result) == self.len', 'forall(lambda j: is_aa(result[j]), 0, self.len)',
+             'forall(lambda j: charge(result[j]) == charge(self.seq[j]), 0, self.len)',
+             # consequences (class-substitution theorems of C05): same delta as the candidate, same charge-class counts as the parent
+             'delta_spec(result, length(result)) == delta_spec(self.seq, self.len)',
+             'npos(result, 0, length(result)) == npos(%s, 0, %s)' % (_PS, _PN), 'nneg(result, 0, length(result)) == nneg(%s, 0, %s)' % (_PS, _PN)],
+    exit_lemmas=['C05_delta_substitution(result, self.seq, length(result))', 'npos_ext(result, self.seq, length(result), 0, length(result))',
+                 'nneg_ext(result, self.seq, length(result), 0, length(result))',
+                 'cnt_ext(mkseq(lambda j: isin(self.seq[j], "KR+"), self.len, "bool"), mkseq(lambda j: self.seq[j] == "+", self.len, "bool"), 0, self.len)',
+                 'cnt_ext(mkseq(lambda j: isin(self.seq[j], "DE-"), self.len, "bool"), mkseq(lambda j: self.seq[j] == "-", self.len, "bool"), 0, self.len)'])
+LOOPS[K + '__permutant_from_reduced_seq'] = {0: dict(index='k', types={'outSeq': 'str'}, invariant=[
+    'length(outSeq) == k',
+    'pos_counter == n_sym(self.seq, "+", 0, k)', 'neg_counter == n_sym(self.seq, "-", 0, k)', 'neut_counter == n_sym(self.seq, "0", 0, k)',
+    'forall(lambda j: And(is_aa(outSeq[j]), charge(outSeq[j]) == charge(self.seq[j])), 0, k)'],
+    lemmas=['n_sym_strict_plus(self.seq, self.len)', 'n_sym_strict_minus(self.seq, self.len)', 'n_sym_strict_zero(self.seq, self.len)',
+            'n_sym_nonneg_plus(self.seq, self.len)', 'n_sym_nonneg_minus(self.seq, self.len)', 'n_sym_nonneg_zero(self.seq, self.len)'])}
+
+
+def _block_hints(u, N, blocks):
+    """lemma instances that count each symbol of a block-structured candidate string: blocks = [(char expr, length expr)]"""
+    hints = []
+    offs = ['0']
+    for _, ln in blocks:
+        offs.append('(%s + %s)' % (offs[-1], ln))
+    for t in ('"+"', '"-"', '"0"'):
+        for i, (ch, ln) in enumerate(blocks):
+            lo, hi = offs[i], offs[i + 1]
+            if i < len(blocks) - 1:
+                hints.append('nsym_split(%s, %s, %s, %s, %s)' % (u, t, lo, hi, N))
+            hints.append(('nsym_all' if ch == t else 'nsym_none') + '(%s, %s, %s, %s)' % (u, t, lo, hi))
+    return hints
+
+
+def _permutant_call_hints(it, fr, lineno):
+    loops = it.enclosing_loops(fr, lineno)
+    o = loops[-1] if loops else None
+    u, N = 'nseq.seq', 'self.len'
+    env = fr.env
+    cv = '"%s"' % env['chargeV'] if isinstance(env.get('chargeV'), str) else None
+    P, Nn = 'npos(self.seq, 0, self.len)', 'nneg(self.seq, 0, self.len)'
+    if o == 0:
+        b = [('"0"', 'position'), (cv, 'ncharge'), ('"0"', '(nneuts - position)')]
+    elif o == 1:
+        b = [(cv, 'position'), ('"0"', 'nneuts'), (cv, '(ncharge - position)')]
+    elif o == 2:
+        b = [('"+"', 'position'), ('"-"', 'nNeg'), ('"+"', '(nPos - position)')]
+    elif o == 3:
+        b = [('"-"', 'position'), ('"+"', 'nPos'), ('"-"', '(nNeg - position)')]
+    elif o == 5:
+        b = [('"0"', 'startNeuts'), ('"+"', P), ('"0"', '(nneuts - startNeuts - endNeuts)'), ('"-"', Nn), ('"0"', 'endNeuts')]
+    elif o == 7:
+        b = [('"0"', 'startNeuts'), ('"+"', P), ('"0"', 'midNeuts'), ('"-"', Nn), ('"0"', '(nneuts - startNeuts - midNeuts)')]
+    else:
+        return []
+    return _block_hints(u, N, b)
+
+
+CONTRACT[K + 'deltaMax#permutant'] = dict(
+    self=mk_sequence(), params={'returnSeqDeltaMax': ('const', True)},
+    cases=[dict(self=mk_sequence(dmax='unset', sdm='none'), tag='fresh'),
+           dict(self=mk_sequence(dmax='any', sdm='none'), requires=['self.dmax == dmax_seq(self.seq, self.len)'], tag='value cached, permutant absent'),
+           dict(self=mk_sequence(dmax='any', sdm='str'), requires=['self.dmax != -1', 'self.dmax == dmax_seq(self.seq, self.len)', 'perm_ok(self, True)'], tag='both cached')],
+    requires=['dmax_inv(self)', 'forall(lambda j: is_aa(self.seq[j]), 0, self.len)'],
+    raises=[], modifies=['dmax', 'seqDeltaMax'], lemmas=_CNT,
+    exit_lemmas=['when(And(npos(self.seq, 0, self.len) == 0, nneg(self.seq, 0, self.len) == 0), delta_uncharged(self.seq, self.len))'],
+    call_lemmas={'Sequence.__permutant_from_reduced_seq': _permutant_call_hints},
+    ensures=['result[0] == dmax_seq(self.seq, self.len)', 'self.dmax == result[0]', 'Not(is_none(result[1]))',
+             'attained(the(result[1]), self.seq, self.len, result[0])'])
+for _o in range(8):
+    LOOPS[K + 'deltaMax'][_o]['invariant'].append('perm_ok(self, returnSeqDeltaMax)')
+    LOOPS[K + 'deltaMax'][_o]['types']['self.seqDeltaMax'] = 'optional[str]'
+
+# the first candidate of every search loop already lifts the running maximum to >= 0 (delta is never negative)
+_FIRST = {0: 'position == 0', 1: 'position == 0', 2: 'position == 0', 3: 'position == 0', 4: 'startNeuts == 0',
+          5: 'And(startNeuts == 0, endNeuts == 0)', 6: 'midNeuts == 0', 7: 'And(midNeuts == 0, startNeuts == 0)'}
+for _o in range(8):
+    LOOPS[K + 'deltaMax'][_o]['invariant'].append('Or(%s, self.dmax >= 0)' % _FIRST[_o])
+    if _o not in (4, 6):
+        LOOPS[K + 'deltaMax'][_o]['post_lemmas'] = ['delta_nonneg(nseq.seq, nseq.len)']
